@@ -312,7 +312,7 @@ Proof.
   injection H as <- _. exists sid, (t0 :: toks), i, sc, xs, sv, l.
   apply sc_loop_ok in El as [Hll Hk]. rewrite map_length in Hll.
   repeat (split; [assumption || reflexivity|]).
-  intros k x Hx. specialize (Hk k). rewrite nth_error_map, Hx in Hk. cbn in Hk. exact Hk.
+  intros k x Hx. specialize (Hk k). rewrite nth_error_map, Hx in Hk. cbn [option_map] in Hk. change (0 + k)%nat with k in Hk. exact Hk.
 Qed.
 
 (* the decision of PRESET on well-formed arguments: refused exactly when some coordinate plus its
@@ -338,14 +338,14 @@ Proof.
   destruct (sc_loop true sc (sv_cmd sv) (sv_offs sv) 0 (map Some xs)) as [l| |] eqn:El; [| |congruence].
   - apply sc_loop_ok in El as [Hll Hk]. rewrite map_length in Hll. split.
     + intros (k & x & v & Hx & Hv & Hna). exfalso. specialize (Hk k). rewrite nth_error_map, Hx in Hk.
-      cbn in Hk. destruct Hk as (v' & Hv' & _ & Hacc). rewrite Hv in Hv'. injection Hv' as <-. auto.
+      cbn [option_map] in Hk. change (0 + k)%nat with k in Hk. destruct Hk as (v' & Hv' & _ & Hacc). rewrite Hv in Hv'. injection Hv' as <-. auto.
     + intros _. exists l. split; [reflexivity|]. split; [exact Hll|]. intros k x Hx.
-      specialize (Hk k). rewrite nth_error_map, Hx in Hk. cbn in Hk. destruct Hk as (v & Hv & Hn & _).
+      specialize (Hk k). rewrite nth_error_map, Hx in Hk. cbn [option_map] in Hk. change (0 + k)%nat with k in Hk. destruct Hk as (v & Hv & Hn & _).
       congruence.
   - split; [reflexivity|]. intros Hall. exfalso.
     apply sc_loop_refused in El as (k & x & v & Hx & Hv & Hna). rewrite nth_error_map in Hx.
-    destruct (nth_error xs k) as [x'|] eqn:Ex; [|discriminate]. cbn in Hx. injection Hx as ->.
-    cbn in Hv. eauto.
+    destruct (nth_error xs k) as [x'|] eqn:Ex; [|discriminate]. cbn [option_map] in Hx. injection Hx as ->.
+    change (0 + k)%nat with k in Hv, Hna. eauto.
 Qed.
 
 (* ---------------------------------------------------------------------------------------------- *)
